@@ -340,14 +340,17 @@ def loadStrTail (ens : Option String) (sizeEl : XmlNode) : LoadM (Option String 
       | .ok n => .ok (termHex, some n)
   | none => .ok (termHex, none)
 
+/-- The `byteOrder` attribute is read (and required) for a multi-byte encoding whose name does not end in BE / LE. -/
+def readStrByteOrder (x : XmlNode) (encoding : String) : LoadM (Option String) :=
+  if !(singleByteEncodings.contains encoding) && !(encoding.endsWith "BE" || encoding.endsWith "LE") then
+    match x.attr? "byteOrder" with
+    | some b => pure (some b)
+    | none => throw Err.value
+  else pure none
+
 def loadStringEncoding (ens : Option String) (x : XmlNode) : LoadM Encoding := do
   let encoding := (x.attr? "encoding").getD "UTF-8"
-  let byteOrder : Option String ←
-    if !(singleByteEncodings.contains encoding) && !(encoding.endsWith "BE" || encoding.endsWith "LE") then
-      match x.attr? "byteOrder" with
-      | some b => pure (some b)
-      | none => throw Err.value
-    else pure none
+  let byteOrder : Option String ← readStrByteOrder x encoding
   let (fixed, dyn, useCal, adj, lookup) ← loadStrSpec ens x
   let (termHex, leading) ← match strSizeEl ens x with
     | some sizeEl => loadStrTail ens sizeEl
